@@ -8,46 +8,12 @@
                                   otherwise reader.take(len).read_to_end(&mut v): polls with the spare capacity of the vector
                                   (any positive step), never more than what is left of the limit; short count = UnexpectedEof
    No proofs in this file. *)
+From PV Require Export Thrift.AsyncEv.
 From PVGen Require Export GenAsync.
 Open Scope Z_scope.
 
-Inductive event := Chunk (c : list byte) | Pend.
-Definition stream := list event.
-
-Fixpoint bytes_of (es : stream) : list byte :=
-  match es with
-  | [] => []
-  | Chunk c :: r => c ++ bytes_of r
-  | Pend :: r => bytes_of r
-  end.
-
-(* AsyncRead::poll_read with room for [cap] bytes *)
-Inductive polled := Ready (got : list byte) (rest : stream) | NotReady (rest : stream) | Eof.
-Definition poll_read (cap : nat) (es : stream) : polled :=
-  match es with
-  | [] => Eof
-  | Pend :: r => NotReady r
-  | Chunk [] :: r => NotReady r
-  | Chunk c :: r => if Nat.leb (length c) cap then Ready c r else Ready (firstn cap c) (Chunk (skipn cap c) :: r)
-  end.
-
-(* read_exact: the bytes that have arrived stay in the buffer across Pending *)
-Fixpoint ev_read_exact (fuel n : nat) (acc : list byte) (es : stream) {struct fuel} : option (list byte * stream) :=
-  match n with
-  | O => Some (acc, es)
-  | Datatypes.S _ =>
-      match fuel with
-      | O => None
-      | Datatypes.S f =>
-          match poll_read n es with
-          | Eof => None
-          | NotReady r => ev_read_exact f n acc r
-          | Ready got r => ev_read_exact f (n - length got) (acc ++ got) r
-          end
-      end
-  end.
-Definition ev_fuel (n : nat) (es : stream) : nat := Datatypes.S (length es + n).
-Definition ev_take (n : nat) (es : stream) : option (list byte * stream) := ev_read_exact (ev_fuel n es) n [] es.
+(* the stream definitions (event, stream, bytes_of, poll_read, ev_read_exact / ev_take, ev_rd_var / ev_varint, ev_read_to_end,
+   ev_read_exact_to_vec) are those of PV.Thrift.AsyncEv (the main family copied them from here; this file now imports them) *)
 
 (* the variant of seeded change C12d: the buffer is rebuilt on every poll, so what arrived before a Pending is lost *)
 Fixpoint ev_read_exact_lossy (fuel n0 n : nat) (acc : list byte) (es : stream) {struct fuel} : option (list byte * stream) :=
@@ -64,50 +30,6 @@ Fixpoint ev_read_exact_lossy (fuel n0 n : nat) (acc : list byte) (es : stream) {
           end
       end
   end.
-
-(* read_varint_async: rd_var with every byte fetched by read_u8 *)
-Fixpoint ev_rd_var (k : nat) (shift acc : Z) (es : stream) : res (Z * stream) :=
-  match k with
-  | O => match ev_take 1 es with None => Err EInvalidData | Some _ => Err ETransport end
-  | Datatypes.S k' =>
-      match ev_take 1 es with
-      | None => Err EInvalidData
-      | Some ([b], rest) =>
-          let d := b2z b in
-          let acc' := acc + (d mod 128) * 2 ^ shift in
-          if d <? 128 then Ok (acc' mod two64, rest) else ev_rd_var k' (shift + 7) acc' rest
-      | Some _ => Err EOther
-      end
-  end.
-Definition ev_varint (maxsize : nat) (es : stream) : res (Z * stream) :=
-  match ev_rd_var maxsize 0 0 es with
-  | Ok r => Ok r
-  | Err _ => Err ETransport
-  | Panic st => Panic st
-  end.
-
-(* Take<R>::read_to_end: polls with room min(step(bytes so far), what is left of the limit) until the limit is used up or EOF *)
-Fixpoint ev_read_to_end (fuel : nat) (step : nat -> nat) (limit : nat) (acc : list byte) (es : stream) {struct fuel}
-  : list byte * stream :=
-  match limit with
-  | O => (acc, es)
-  | Datatypes.S _ =>
-      match fuel with
-      | O => (acc, es)
-      | Datatypes.S f =>
-          match poll_read (Nat.min (Datatypes.S (step (length acc))) limit) es with
-          | Eof => (acc, es)
-          | NotReady r => ev_read_to_end f step limit acc r
-          | Ready got r => ev_read_to_end f step (limit - length got) (acc ++ got) r
-          end
-      end
-  end.
-
-Definition prealloc_limit : nat := 4096.
-Definition ev_read_exact_to_vec (step : nat -> nat) (len : nat) (es : stream) : option (list byte * stream) :=
-  if Nat.leb len prealloc_limit then ev_take len es
-  else let '(v, es') := ev_read_to_end (ev_fuel len es) step len [] es in
-       if Nat.eqb (length v) len then Some (v, es') else None.
 
 (* the variant of seeded change C12b: read_buf without the Take limit -- a poll may hand out more than is wanted *)
 Definition ev_read_vec_overread (step : nat -> nat) (len : nat) (es : stream) : option (list byte * stream) :=
